@@ -293,8 +293,9 @@ int main(int argc, char** argv)
                     ret(a, w->body_done[h].load() ? 1 : -7);
                 }
                 // the history ends only when the thread is completely gone (exit callbacks included)
-                for (int i = 0; i < 20000 && g_cb_ran[h].load() < w->cb_accepted[h].load(); ++i)
-                    pika::this_thread::yield();
+                // (unbounded: a bounded wait let a late callback leak into the next history when the
+                // worker running it was descheduled by the OS; the outer watchdog handles a real hang)
+                while (g_cb_ran[h].load() < w->cb_accepted[h].load()) pika::this_thread::yield();
                 ++progress;
                 ++finished;
             });
@@ -310,7 +311,7 @@ int main(int argc, char** argv)
                 last = p;
                 last_change = clk::now();
             }
-            else if (clk::now() - last_change > std::chrono::seconds(6))
+            else if (clk::now() - last_change > std::chrono::seconds(12))
             {
                 ev("quiescent").done();
                 vlog::flush();
